@@ -27,7 +27,36 @@ def run_property(prop, tier, repo, seed=0, quiet=False, write=True):
     mod.check(chk)
     if tier == "thorough" and hasattr(mod, "thorough"):
         mod.thorough(chk)
+        if not chk.violations and os.environ.get("SA_NO_DEEP") != "1":
+            _deep(chk, prop, repo)
     return chk
+
+
+def _deep(chk, prop, repo):
+    """Thorough-only robustness and sensitivity figures over every function the rules analysed:
+    * twins (sa/twins.py): mechanical behaviour-preserving rewrites must leave the verdict unchanged -- a rewrite that
+      raises a report is a defect of the checker (ANALYSIS-ERROR), never of the repository;
+    * syntactic mutants (sa/survey.py): how many single-site mutants of those functions the rules notice (a figure,
+      not a verdict: most unnoticed mutants are irrelevant to the property)."""
+    from sa import twins, survey
+    rows = twins.run([prop], repo)
+    bad = [r for r in rows if r["status"] not in ("silent", "noparse")]
+    kinds = {}
+    for r in rows:
+        if r["status"] == "silent":
+            kinds[r["kind"]] = kinds.get(r["kind"], 0) + 1
+    chk.extra["twins"] = {"generated": len(rows), "silent": sum(kinds.values()), "by_kind": kinds,
+                          "not_silent": ["%s %s:%s [%s] %s -> %s" % (r["status"], r["func"], r["line"], r["kind"], r["desc"], r["info"][:120]) for r in bad[:20]]}
+    srows, per_func = survey.survey([prop], repo)
+    tot = survey.summarise(srows)
+    chk.extra["syntactic_mutants"] = {"functions": len(per_func), "generated": sum(v for k, v in tot.items() if k != "noparse"),
+                                      "reported_as_violation": tot.get("fired", 0), "analysis_refused": tot.get("analysis-error", 0) + tot.get("crash", 0),
+                                      "unnoticed": tot.get("silent", 0),
+                                      "note": "unnoticed includes mutants that are equivalent or irrelevant to the property (logging, messages, other features)"}
+    if not chk.quiet:
+        print("  twins: %d generated, %d silent; syntactic mutants: %s" % (len(rows), sum(kinds.values()), chk.extra["syntactic_mutants"]))
+    if bad:
+        raise AnalysisError("behaviour-preserving rewrites changed the verdict (checker too strict): %s" % chk.extra["twins"]["not_silent"][:3])
 
 
 def main(argv=None):
